@@ -180,6 +180,147 @@ theorem urns_set_idem (c : Contact) (urns : List (Option URN)) :
     rw [h1]
     simp
 
+/-! #### append and remove are idempotent too -/
+
+theorem hasURN_append_left (us : List URN) (x u : URN) (h : hasURN us u = true) : hasURN (us ++ [x]) u = true := by
+  simp only [hasURN] at h ⊢
+  simp only [List.any_append, h, Bool.true_or]
+
+/-- appending keeps what is there -/
+theorem urnsLoop_append_mono (us : List URN) (l : List (Option URN)) (u : URN) (h : hasURN us u = true) :
+    hasURN (urnsLoop .append us l).1 u = true := by
+  induction l generalizing us with
+  | nil => simpa [urnsLoop] using h
+  | cons x l ih =>
+    cases x with
+    | none => simp only [urnsLoop]; exact ih us h
+    | some v =>
+      simp only [urnsLoop]
+      apply ih
+      split
+      · exact h
+      · exact hasURN_append_left us v u h
+
+/-- after appending, every URN of the modifier is there -/
+theorem urnsLoop_append_has (us : List URN) (l : List (Option URN)) :
+    ∀ u, some u ∈ l → hasURN (urnsLoop .append us l).1 u = true := by
+  induction l generalizing us with
+  | nil => intro u hu; cases hu
+  | cons x l ih =>
+    intro u hu
+    cases x with
+    | none =>
+      simp only [urnsLoop]
+      exact ih us u (by simpa using hu)
+    | some v =>
+      simp only [urnsLoop]
+      simp only [List.mem_cons, Option.some.injEq] at hu
+      rcases hu with rfl | hu
+      · apply urnsLoop_append_mono
+        split
+        · assumption
+        · simp [hasURN]
+      · exact ih _ u hu
+
+/-- appending URNs that are all there changes nothing -/
+theorem urnsLoop_append_fixed (us : List URN) (l : List (Option URN))
+    (h : ∀ u, some u ∈ l → hasURN us u = true) : (urnsLoop .append us l).1 = us := by
+  induction l with
+  | nil => rfl
+  | cons x l ih =>
+    cases x with
+    | none => simp only [urnsLoop]; exact ih (fun u hu => h u (by simp [hu]))
+    | some v =>
+      simp only [urnsLoop, h v (by simp), if_true]
+      exact ih (fun u hu => h u (by simp [hu]))
+
+theorem urns_append_idem (c : Contact) (urns : List (Option URN)) :
+    (applyURNs (applyURNs c .append urns).contact .append urns).modified = false ∧
+    (applyURNs (applyURNs c .append urns).contact .append urns).contact = (applyURNs c .append urns).contact := by
+  -- the contact after the first application has exactly the first result as its URNs
+  have hfirst : (applyURNs c .append urns).contact.urns = (urnsResult c .append urns).1 := by
+    unfold applyURNs
+    split
+    · rfl
+    · rename_i h; simp only [ne_eq, Decidable.not_not] at h; exact h.symm
+  have hfix : (urnsResult (applyURNs c .append urns).contact .append urns).1 = (applyURNs c .append urns).contact.urns := by
+    simp only [urnsResult, reduceCtorEq, if_false]
+    rw [hfirst]
+    simp only [urnsResult, reduceCtorEq, if_false]
+    exact urnsLoop_append_fixed _ urns (urnsLoop_append_has c.urns urns)
+  generalize applyURNs c .append urns = o at hfix
+  unfold applyURNs
+  rw [if_neg (by simp [hfix])]
+  exact ⟨rfl, rfl⟩
+
+theorem filter_filter_id (us : List URN) (v u : URN) (h : hasURN us u = false) :
+    hasURN (us.filter (·.identity ≠ v.identity)) u = false := by
+  simp only [hasURN, List.any_eq_false, List.mem_filter] at h ⊢
+  intro x hx; exact h x hx.1
+
+/-- removing keeps absent what is absent -/
+theorem urnsLoop_remove_mono (us : List URN) (l : List (Option URN)) (u : URN) (h : hasURN us u = false) :
+    hasURN (urnsLoop .remove us l).1 u = false := by
+  induction l generalizing us with
+  | nil => simpa [urnsLoop] using h
+  | cons x l ih =>
+    cases x with
+    | none => simp only [urnsLoop]; exact ih us h
+    | some v => simp only [urnsLoop]; exact ih _ (filter_filter_id us v u h)
+
+theorem urnsLoop_remove_gone (us : List URN) (l : List (Option URN)) :
+    ∀ u, some u ∈ l → hasURN (urnsLoop .remove us l).1 u = false := by
+  induction l generalizing us with
+  | nil => intro u hu; cases hu
+  | cons x l ih =>
+    intro u hu
+    cases x with
+    | none => simp only [urnsLoop]; exact ih us u (by simpa using hu)
+    | some v =>
+      simp only [urnsLoop]
+      simp only [List.mem_cons, Option.some.injEq] at hu
+      rcases hu with rfl | hu
+      · apply urnsLoop_remove_mono
+        simp [hasURN, List.any_eq_false]
+      · exact ih _ u hu
+
+theorem urnsLoop_remove_fixed (us : List URN) (l : List (Option URN))
+    (h : ∀ u, some u ∈ l → hasURN us u = false) : (urnsLoop .remove us l).1 = us := by
+  induction l with
+  | nil => rfl
+  | cons x l ih =>
+    cases x with
+    | none => simp only [urnsLoop]; exact ih (fun u hu => h u (by simp [hu]))
+    | some v =>
+      simp only [urnsLoop]
+      have hv := h v (by simp)
+      have : us.filter (·.identity ≠ v.identity) = us := by
+        rw [List.filter_eq_self]
+        intro x hx
+        simp only [hasURN, List.any_eq_false] at hv
+        have := hv x hx
+        simpa using this
+      rw [this]
+      exact ih (fun u hu => h u (by simp [hu]))
+
+theorem urns_remove_idem (c : Contact) (urns : List (Option URN)) :
+    (applyURNs (applyURNs c .remove urns).contact .remove urns).modified = false ∧
+    (applyURNs (applyURNs c .remove urns).contact .remove urns).contact = (applyURNs c .remove urns).contact := by
+  have hfirst : (applyURNs c .remove urns).contact.urns = (urnsResult c .remove urns).1 := by
+    unfold applyURNs
+    split
+    · rfl
+    · rename_i h; simp only [ne_eq, Decidable.not_not] at h; exact h.symm
+  have hfix : (urnsResult (applyURNs c .remove urns).contact .remove urns).1 = (applyURNs c .remove urns).contact.urns := by
+    simp only [urnsResult, reduceCtorEq, if_false]
+    rw [hfirst]
+    simp only [urnsResult, reduceCtorEq, if_false]
+    exact urnsLoop_remove_fixed _ urns (urnsLoop_remove_gone c.urns urns)
+  generalize applyURNs c .remove urns = o at hfix
+  unfold applyURNs
+  rw [if_neg (by simp [hfix])]
+  exact ⟨rfl, rfl⟩
+
 /-- contacts that are not active are refused; the refusal changes nothing -/
 theorem groups_refused (isQuery : Nat → Bool) (c : Contact) (add : Bool) (gs : List Nat)
     (h : c.status ≠ .active) :
